@@ -1,5 +1,5 @@
 /-
-  Source-level decoder, part 2: `int curSize` arithmetic, the frame-header readers and the message-level callees of
+  Source-level decoder, part 2: the frame-header readers and the message-level callees of
   `Decoder::decode` on a message `r` at address `pre.length` of `pre ++ r ++ post`, the produced packets.
 -/
 import AsamCmp.Lemmas.SrcDecoderTable
@@ -10,21 +10,7 @@ open AsamCmp AsamCmp.Src AsamCmp.SrcGen AsamCmp.SrcTie AsamCmp.C17b
 -- the normalisation lists are kept uniform across the generated getters, whatever shape the translator gives them
 set_option linter.unusedSimpArgs false
 
-/-! ### `int curSize` -/
-
-theorem sext_small (x : Nat) (h : x < 2 ^ 31) : sext 32 64 x = x := by
-  unfold sext; rw [if_pos h]
-
-theorem slt_zero (x : Nat) (h : x < 2 ^ 31) : slt 32 0 x = decide (0 < x) := by
-  unfold slt; rw [toInt_small 0 (by decide), toInt_small x h]
-  simp only [Int.natCast_pos, Int.ofNat_lt]
-
-theorem ssub_small (x y : Nat) (hx : x < 2 ^ 31) (hy : y ≤ x) : ssub 32 x (y % 4294967296) = some (x - y) := by
-  have hy' : y % 4294967296 = y := Nat.mod_eq_of_lt (by omega)
-  unfold ssub
-  rw [hy', toInt_small x hx, toInt_small y (by omega)]
-  have : (x : Int) - (y : Int) = ((x - y : Nat) : Int) := by omega
-  rw [this, ofInt_small _ (by omega)]
+/-! ### `header + 1` -/
 
 theorem nonneg_one : nonneg 32 1 = some 1 := nonneg_small 1 (by decide)
 
